@@ -237,6 +237,9 @@ func (g *Gen) mutants(slot string) {
 		add("evt")
 		add("evdrop")
 	}
+	if len(p.X) > 0 || len(p.E) > 0 {
+		add("noreq")
+	}
 	if r.Chance(1, 4) {
 		add("same")
 	}
